@@ -200,6 +200,8 @@ class State:
     def shift(self, t, d):
         """t := t + d  (d may be negative; caller has checked no wrap)"""
         nd = {}
+        if d > 0 and (ZERO, t) not in self.dbm and t != ZERO:
+            nd[(ZERO, t)] = -d      # every term is unsigned: 0 - t <= 0 held implicitly before the step
         for (a, b), c in self.dbm.items():
             if a == t and b != t:
                 nd[(a, b)] = c + d
